@@ -1,5 +1,6 @@
 import VibeProof.Lemmas.Join
 import VibeProof.Model.Sql
+import VibeProof.Lemmas.Reindex
 /-
 C05 — join ordering, join algorithms and subquery rewrites preserve query meaning.
 
@@ -439,6 +440,24 @@ example : (∀ a ∈ [[Value.int 1, .str "x"], [.null, .str "y"]], a.length = 2)
   · intro a ha b hb; simp at ha hb
     rcases ha with rfl | rfl <;> rcases hb with rfl | rfl | rfl <;> simp [keysComparable, Value.cmp?]
 
+
+/-! ### wrapping a table in a derived table -/
+
+/-- `FROM (SELECT * FROM t) AS d` may be replaced by `FROM t`: any outer query evaluated over
+the derived table equals the same query with the derived table's index redirected to `t`
+(every row of `t` has the declared width) -/
+theorem C05_derived_wrap_identity (db : Sql.Db) (i w : Nat) (rows : List Row) (outer : Sql.Core)
+    (ht : db.tables[i]? = some (w, rows)) (hw : ∀ r ∈ rows, r.length = w) :
+    View.evalDerived db (Sql.selectStar i w) outer
+      = (outer.reindex (fun j => if j = db.tables.length then i else j)).eval db :=
+  Sql.derived_wrap_identity db i w rows outer ht hw
+
+/-- non-vacuity: a two-column table with a NULL, outer query projecting the second column -/
+example :
+    let db : Sql.Db := { tables := [(2, [[.int 1, .null], [.int 2, .str "b"]])] }
+    let outer : Sql.Core := { from_ := .table 1, where_ := none, group := none, select := [.col 1], distinct := false, orderBy := [], limit := none, offset := 0 }
+    View.evalDerived db (Sql.selectStar 0 2) outer = .ok [[.null], [.str "b"]] := by
+  rfl
 
 /-- non-vacuity: duplicates, a NULL key on each side -/
 example : hashJoinInner (fun r => r.headD .null) (fun r => r.headD .null)
